@@ -1,1 +1,494 @@
-//! Real HTTP transport helpers (in-process sos_server on loopback) — placeholder.
+//! Real HTTP transport helpers: an in-process `sos_server::Server` on
+//! loopback (assembled exactly as `tests/utils` does: `ServerConfig::load`,
+//! `config.backend()`, `State::new`, `Server::start` with an
+//! `axum_server::Handle`), devices that own an account on that server
+//! (`LocalAccount` + the repo's `RemoteBridge`/`HttpClient`), a raw request
+//! helper that can send ANY method / path / headers / body, bearer
+//! signing exactly as `network_client::encode_device_signature` does, and a
+//! fingerprint of the server state used to decide "state untouched".
+#![allow(dead_code)]
+use secrecy::SecretString;
+use serde_json::{json, Value};
+use sos_account::{Account, LocalAccount};
+use sos_backend::BackendTarget;
+use sos_core::{AccountId, Origin};
+use sos_net::RemoteBridge;
+use sos_protocol::network_client::{HttpClient, HttpClientOptions};
+use sos_protocol::RemoteSync;
+use sos_remote_sync::RemoteSyncHandler;
+use sos_server::{AccessControlConfig, Server, ServerBackend, ServerConfig, ServerState, State, UriOrPath};
+use sos_server_storage::ServerAccountStorage;
+use sos_signer::ed25519::{BinaryEd25519Signature, BoxedEd25519Signer, SingleParty};
+use sos_signer::Signer;
+use sos_sync::SyncStorage;
+use std::collections::{BTreeMap, HashSet};
+use std::net::SocketAddr;
+use std::path::{Path, PathBuf};
+use std::sync::atomic::{AtomicUsize, Ordering};
+use std::sync::{Arc, Mutex as StdMutex};
+use std::time::Duration;
+use tokio::sync::{Mutex, RwLock};
+use vmodel::setup::{self, Backend, Config, Pristine};
+
+pub const ACCOUNT_HEADER: &str = "x-sos-account-id";
+
+/// Access-control section of the server configuration.
+#[derive(Clone, Debug)]
+pub struct Access {
+    pub name: &'static str,
+    pub allow: Option<Vec<AccountId>>,
+    pub deny: Option<Vec<AccountId>>,
+}
+
+impl Access {
+    pub fn none() -> Self {
+        Access { name: "none", allow: None, deny: None }
+    }
+    /// What the documentation of `AccessControlConfig` promises: an id on
+    /// the deny list is refused (deny wins); with an allow list only listed
+    /// ids are served.
+    pub fn documented_allows(&self, id: &AccountId) -> bool {
+        if let Some(d) = &self.deny {
+            if d.contains(id) {
+                return false;
+            }
+        }
+        if let Some(a) = &self.allow {
+            return a.contains(id);
+        }
+        true
+    }
+    fn to_config(&self) -> Option<AccessControlConfig> {
+        if self.allow.is_none() && self.deny.is_none() {
+            return None;
+        }
+        Some(AccessControlConfig {
+            allow: self.allow.as_ref().map(|v| v.iter().copied().collect::<HashSet<_>>()),
+            deny: self.deny.as_ref().map(|v| v.iter().copied().collect::<HashSet<_>>()),
+        })
+    }
+}
+
+/// A running in-process server.
+pub struct TestServer {
+    pub dir: PathBuf,
+    pub addr: SocketAddr,
+    pub url: url::Url,
+    pub origin: Origin,
+    pub handle: axum_server::Handle,
+    pub task: Option<tokio::task::JoinHandle<Result<(), String>>>,
+    pub backend: ServerBackend,
+    pub state: ServerState,
+    pub db: bool,
+}
+
+static CONFIG_SEQ: AtomicUsize = AtomicUsize::new(0);
+
+impl TestServer {
+    /// Start a server whose storage is `dir` (created when missing; existing
+    /// accounts are loaded from it as a restarted server would).
+    pub async fn start(dir: &Path, access: &Access, db: bool) -> anyhow::Result<TestServer> {
+        std::fs::create_dir_all(dir)?;
+        let dir = dir.canonicalize()?;
+        // `ServerConfig::backend()` needs the path the config was loaded
+        // from, so write a real config file next to the storage dir.
+        let n = CONFIG_SEQ.fetch_add(1, Ordering::SeqCst);
+        let cfg_dir = dir.parent().unwrap_or(&dir).join(format!("server-config-{}-{}", std::process::id(), n));
+        std::fs::create_dir_all(&cfg_dir)?;
+        let cfg_file = cfg_dir.join("config.toml");
+        let text = format!("[storage]\npath = {:?}\n\n[log]\ndirectory = \"logs\"\n", dir.to_string_lossy());
+        std::fs::write(&cfg_file, text)?;
+        let mut config = ServerConfig::load(&cfg_file).await.map_err(|e| anyhow::anyhow!("config load: {e}"))?;
+        config.storage.path = dir.clone();
+        if db {
+            let db_file = dir.join(sos_core::constants::DATABASE_FILE);
+            config.storage.database_uri = Some(UriOrPath::Path(db_file));
+        }
+        config.access = access.to_config();
+        config.set_bind_address("127.0.0.1:0".parse().unwrap());
+        let backend = config.backend().await.map_err(|e| anyhow::anyhow!("server backend: {e}"))?;
+        let backend: ServerBackend = Arc::new(RwLock::new(backend));
+        let state: ServerState = Arc::new(RwLock::new(State::new(config)));
+        let handle = axum_server::Handle::new();
+        let server = Server::new().await.map_err(|e| anyhow::anyhow!("server new: {e}"))?;
+        let (s2, b2, h2) = (state.clone(), backend.clone(), handle.clone());
+        let task = tokio::spawn(async move { server.start(s2, b2, h2).await.map_err(|e| format!("{e}")) });
+        // bounded wait for the listener
+        let addr = match tokio::time::timeout(Duration::from_secs(30), handle.listening()).await {
+            Ok(Some(a)) => a,
+            Ok(None) => anyhow::bail!("server did not start listening"),
+            Err(_) => anyhow::bail!("timeout waiting for the server to listen"),
+        };
+        let url = url::Url::parse(&format!("http://{}:{}", addr.ip(), addr.port()))?;
+        Ok(TestServer { dir, addr, origin: url.clone().into(), url, handle, task: Some(task), backend, state, db })
+    }
+
+    /// Has the server task ended (it must not while we hold the handle)?
+    pub fn died(&self) -> bool {
+        self.task.as_ref().map(|t| t.is_finished()).unwrap_or(true)
+    }
+
+    pub async fn shutdown(mut self) {
+        self.handle.graceful_shutdown(Some(Duration::from_millis(500)));
+        if let Some(t) = self.task.take() {
+            let _ = tokio::time::timeout(Duration::from_secs(10), t).await;
+        }
+    }
+
+    /// Account ids the running server holds in memory.
+    pub async fn account_ids(&self) -> Vec<AccountId> {
+        let reader = self.backend.read().await;
+        let accounts = reader.accounts();
+        let accounts = accounts.read().await;
+        let mut v: Vec<AccountId> = accounts.keys().copied().collect();
+        v.sort_by_key(|a| a.to_string());
+        v
+    }
+
+    /// Device keys the server currently trusts for an account (hex).
+    pub async fn trusted_keys(&self, id: &AccountId) -> Option<Vec<String>> {
+        let reader = self.backend.read().await;
+        let accounts = reader.accounts();
+        let accounts = accounts.read().await;
+        let acc = accounts.get(id)?.clone();
+        let acc = acc.read().await;
+        let mut v: Vec<String> = acc.list_device_keys().into_iter().map(|k| hex::encode(k.as_ref())).collect();
+        v.sort();
+        Some(v)
+    }
+
+    /// Account-scoped server paths.
+    pub fn account_paths(&self, id: &AccountId) -> Arc<sos_core::Paths> {
+        sos_core::Paths::new_server(&self.dir).with_account_id(id)
+    }
+}
+
+/// Fingerprint of the server: recursive listing of the storage directory
+/// (relative path -> size + sha256; sqlite files are replaced by a logical
+/// dump of every table so that checkpointing is not mistaken for a change),
+/// plus what the running server holds in memory: per account the sync
+/// status (root hash + every log's commit state) and the trusted device
+/// keys, plus the number of registered websocket connections.
+pub async fn fingerprint(server: &TestServer) -> BTreeMap<String, String> {
+    let mut out = BTreeMap::new();
+    walk(&server.dir, &server.dir, &mut out);
+    if server.db {
+        let db_file = server.dir.join(sos_core::constants::DATABASE_FILE);
+        out.insert("db:dump".into(), dump_sqlite(&db_file).await);
+    }
+    {
+        let reader = server.backend.read().await;
+        let accounts = reader.accounts();
+        let accounts = accounts.read().await;
+        let mut ids: Vec<AccountId> = accounts.keys().copied().collect();
+        ids.sort_by_key(|a| a.to_string());
+        for id in ids {
+            let acc = accounts.get(&id).unwrap().read().await;
+            let st = match acc.sync_status().await {
+                Ok(s) => format!("{:?}", status_key(&s)),
+                Err(e) => format!("error: {e}"),
+            };
+            out.insert(format!("mem:{id}:status"), st);
+            let mut keys: Vec<String> = acc.list_device_keys().into_iter().map(|k| hex::encode(k.as_ref())).collect();
+            keys.sort();
+            out.insert(format!("mem:{id}:devices"), keys.join(","));
+        }
+    }
+    out
+}
+
+/// Stable rendering of a sync status.
+pub fn status_key(s: &sos_sync::SyncStatus) -> Vec<String> {
+    let mut v = vec![format!("root={}", s.root), format!("identity={}", s.identity.0), format!("account={}", s.account.0), format!("device={}", s.device.0), format!("files={:?}", s.files.as_ref().map(|f| f.0.to_string()))];
+    let mut f: Vec<String> = s.folders.iter().map(|(k, c)| format!("folder:{k}={}", c.0)).collect();
+    f.sort();
+    v.extend(f);
+    v
+}
+
+fn walk(root: &Path, dir: &Path, out: &mut BTreeMap<String, String>) {
+    let Ok(rd) = std::fs::read_dir(dir) else { return };
+    for e in rd.flatten() {
+        let p = e.path();
+        let rel = p.strip_prefix(root).unwrap_or(&p).to_string_lossy().to_string();
+        let Ok(ft) = e.file_type() else { continue };
+        if ft.is_dir() {
+            // server log files are not state
+            if rel == "logs" {
+                continue;
+            }
+            out.insert(format!("dir:{rel}"), String::new());
+            walk(root, &p, out);
+        } else if ft.is_file() {
+            let name = e.file_name().to_string_lossy().to_string();
+            if name.ends_with(".db") || name.ends_with(".db-wal") || name.ends_with(".db-shm") || name.ends_with(".db-journal") {
+                // judged through the logical dump
+                continue;
+            }
+            match std::fs::read(&p) {
+                Ok(b) => {
+                    out.insert(format!("file:{rel}"), format!("{}:{}", b.len(), hex::encode(vkit::sha256(&b))));
+                }
+                Err(e) => {
+                    out.insert(format!("file:{rel}"), format!("unreadable:{e}"));
+                }
+            }
+        }
+    }
+}
+
+async fn dump_sqlite(db_file: &Path) -> String {
+    if !db_file.exists() {
+        return "absent".into();
+    }
+    let client = match async_sqlite::ClientBuilder::new().path(db_file).flags(async_sqlite::rusqlite::OpenFlags::SQLITE_OPEN_READ_ONLY).open().await {
+        Ok(c) => c,
+        Err(e) => return format!("open error: {e}"),
+    };
+    let r = client
+        .conn(|conn| {
+            use async_sqlite::rusqlite::types::ValueRef;
+            let mut names: Vec<String> = vec![];
+            {
+                let mut st = conn.prepare("SELECT name FROM sqlite_master WHERE type='table' ORDER BY name")?;
+                let mut rows = st.query([])?;
+                while let Some(r) = rows.next()? {
+                    names.push(r.get::<_, String>(0)?);
+                }
+            }
+            let mut parts = vec![];
+            for t in names {
+                if t.starts_with("sqlite_") || t.contains("audit") {
+                    continue;
+                }
+                let mut h = vkit::Fnv::new();
+                let mut n = 0u64;
+                let mut st = conn.prepare(&format!("SELECT * FROM \"{}\"", t))?;
+                let cols = st.column_count();
+                let mut rows = st.query([])?;
+                let mut lines: Vec<u64> = vec![];
+                while let Some(r) = rows.next()? {
+                    let mut rh = vkit::Fnv::new();
+                    for i in 0..cols {
+                        match r.get_ref(i)? {
+                            ValueRef::Null => {
+                                rh.bytes(&[0]);
+                            }
+                            ValueRef::Integer(v) => {
+                                rh.bytes(&[1]).u64(v as u64);
+                            }
+                            ValueRef::Real(v) => {
+                                rh.bytes(&[2]).u64(v.to_bits());
+                            }
+                            ValueRef::Text(b) => {
+                                rh.bytes(&[3]).bytes(b).bytes(&[0xff]);
+                            }
+                            ValueRef::Blob(b) => {
+                                rh.bytes(&[4]).bytes(b).bytes(&[0xff]);
+                            }
+                        }
+                    }
+                    lines.push(rh.finish());
+                    n += 1;
+                }
+                lines.sort();
+                for l in lines {
+                    h.u64(l);
+                }
+                parts.push(format!("{t}:{n}:{:016x}", h.finish()));
+            }
+            Ok(parts.join(";"))
+        })
+        .await;
+    let _ = client.close().await;
+    match r {
+        Ok(s) => s,
+        Err(e) => format!("dump error: {e}"),
+    }
+}
+
+/// Keys whose values differ between two fingerprints.
+pub fn fp_diff(a: &BTreeMap<String, String>, b: &BTreeMap<String, String>) -> Vec<String> {
+    let mut out = vec![];
+    for (k, v) in a {
+        match b.get(k) {
+            Some(w) if w == v => {}
+            Some(_) => out.push(format!("changed {k}")),
+            None => out.push(format!("removed {k}")),
+        }
+    }
+    for k in b.keys() {
+        if !a.contains_key(k) {
+            out.push(format!("added {k}"));
+        }
+    }
+    out
+}
+
+// ---------------------------------------------------------------- signing
+
+/// Bearer token exactly as the repo's client computes it: base58 of the
+/// binary-encoded ed25519 signature over `bytes`.
+pub async fn bearer_for(signer: &BoxedEd25519Signer, bytes: &[u8]) -> String {
+    let sig = signer.sign(bytes).await.expect("ed25519 sign");
+    let bin: BinaryEd25519Signature = sig.into();
+    let enc = sos_core::encode(&bin).await.expect("encode signature");
+    bs58::encode(enc).into_string()
+}
+
+pub fn fresh_signer() -> BoxedEd25519Signer {
+    Box::new(SingleParty::new_random())
+}
+
+// ------------------------------------------------------------ raw requests
+
+#[derive(Clone, Debug)]
+pub struct RawReq {
+    pub method: String,
+    /// path with optional query string, e.g. `/api/v1/sync/account?connection_id=x`
+    pub target: String,
+    pub headers: Vec<(String, String)>,
+    pub body: Option<Vec<u8>>,
+}
+
+#[derive(Clone, Debug)]
+pub struct RawResp {
+    pub status: u16,
+    pub headers: Vec<(String, String)>,
+    pub body: Vec<u8>,
+}
+
+#[derive(Debug)]
+pub enum RawErr {
+    Timeout,
+    /// connection closed / reset without a response
+    NoResponse(String),
+}
+
+pub fn raw_client() -> reqwest::Client {
+    reqwest::Client::builder().connect_timeout(Duration::from_secs(5)).pool_max_idle_per_host(0).redirect(reqwest::redirect::Policy::none()).build().expect("reqwest client")
+}
+
+/// Send any request. The wait is bounded; a timeout is reported as such
+/// (callers turn it into *inconclusive*, never into a violation).
+pub async fn raw(client: &reqwest::Client, base: &url::Url, req: &RawReq, wait: Duration) -> Result<RawResp, RawErr> {
+    let url = format!("{}{}", base.as_str().trim_end_matches('/'), req.target);
+    let method = reqwest::Method::from_bytes(req.method.as_bytes()).expect("method");
+    let mut rb = client.request(method, &url);
+    for (k, v) in &req.headers {
+        rb = rb.header(k.as_str(), v.as_str());
+    }
+    if let Some(b) = &req.body {
+        rb = rb.body(b.clone());
+    }
+    let fut = async {
+        let resp = rb.send().await?;
+        let status = resp.status().as_u16();
+        let headers = resp.headers().iter().map(|(k, v)| (k.to_string(), v.to_str().unwrap_or("").to_string())).collect();
+        // a 101 upgrade has no body to wait for
+        let body = if status == 101 { vec![] } else { resp.bytes().await.map(|b| b.to_vec()).unwrap_or_default() };
+        Ok::<_, reqwest::Error>(RawResp { status, headers, body })
+    };
+    match tokio::time::timeout(wait, fut).await {
+        Err(_) => Err(RawErr::Timeout),
+        Ok(Err(e)) if e.is_timeout() => Err(RawErr::Timeout),
+        Ok(Err(e)) => Err(RawErr::NoResponse(format!("{e:?}"))),
+        Ok(Ok(r)) => Ok(r),
+    }
+}
+
+// ----------------------------------------------------------------- devices
+
+/// A device: a signed-in `LocalAccount` bridged to a server with the repo's
+/// `RemoteBridge` (HttpClient + auto merge).
+pub struct HttpDevice {
+    pub dir: PathBuf,
+    pub account: Arc<Mutex<LocalAccount>>,
+    pub target: BackendTarget,
+    pub account_id: AccountId,
+    pub password: SecretString,
+    pub signer: BoxedEd25519Signer,
+    pub bridge: RemoteBridge,
+}
+
+impl HttpDevice {
+    /// Open a copy of a pristine account in `dir` and bridge it to `origin`.
+    pub async fn from_pristine(p: &Pristine, dir: &Path, origin: &Origin, connection_id: &str) -> anyhow::Result<HttpDevice> {
+        let opened = setup::instantiate(p, dir).await?;
+        let signer: BoxedEd25519Signer = opened.account.device_signer().await?.into();
+        let account = Arc::new(Mutex::new(opened.account));
+        let bridge = Self::bridge_for(account.clone(), p.account_id, &signer, origin, connection_id)?;
+        Ok(HttpDevice { dir: dir.to_path_buf(), account, target: opened.target, account_id: p.account_id, password: p.password.clone(), signer, bridge })
+    }
+
+    pub fn bridge_for(account: Arc<Mutex<LocalAccount>>, account_id: AccountId, signer: &BoxedEd25519Signer, origin: &Origin, connection_id: &str) -> anyhow::Result<RemoteBridge> {
+        let options = HttpClientOptions { account_id, origin: origin.clone(), device_signer: signer.clone(), connection_id: connection_id.to_string(), network_config: Default::default() };
+        Ok(RemoteBridge::new(account, options)?)
+    }
+
+    /// Point this device at another server origin (same account, same key).
+    pub fn rebridge(&mut self, origin: &Origin, connection_id: &str) -> anyhow::Result<()> {
+        self.bridge = Self::bridge_for(self.account.clone(), self.account_id, &self.signer, origin, connection_id)?;
+        Ok(())
+    }
+
+    pub fn client(&self) -> &HttpClient {
+        self.bridge.client()
+    }
+
+    /// One full sync through the repo's own code (creates the account on
+    /// the server when it does not exist there yet).
+    pub async fn sync(&self) -> Result<(), String> {
+        let r = self.bridge.sync().await;
+        match r.result {
+            Ok(_) => Ok(()),
+            Err(e) => Err(format!("{e}")),
+        }
+    }
+
+    pub async fn close(self) {
+        {
+            let mut a = self.account.lock().await;
+            let _ = a.sign_out().await;
+        }
+        setup::close_target(self.target).await;
+    }
+}
+
+/// Create a pristine account (signed out) under `dir`.
+pub async fn pristine(dir: &Path, backend: Backend, rng: &mut vkit::Rng) -> anyhow::Result<Pristine> {
+    let config = Config { backend, cipher: Default::default(), kdf: Default::default() };
+    setup::create_pristine(dir, &config, rng).await
+}
+
+// ------------------------------------------------------------- panic watch
+
+static PANICS: StdMutex<Vec<String>> = StdMutex::new(Vec::new());
+
+/// Record every panic (also those swallowed by a connection task) with its
+/// location; chains to the previous hook.
+pub fn install_panic_watch() {
+    static ONCE: std::sync::Once = std::sync::Once::new();
+    ONCE.call_once(|| {
+        let prev = std::panic::take_hook();
+        std::panic::set_hook(Box::new(move |info| {
+            let loc = info.location().map(|l| format!("{}:{}", l.file(), l.line())).unwrap_or_else(|| "?".into());
+            let msg = info.payload().downcast_ref::<String>().cloned().or_else(|| info.payload().downcast_ref::<&str>().map(|s| s.to_string())).unwrap_or_default();
+            if let Ok(mut p) = PANICS.lock() {
+                p.push(format!("{loc}: {msg}"));
+            }
+            prev(info);
+        }));
+    });
+}
+
+pub fn panics_seen() -> usize {
+    PANICS.lock().map(|p| p.len()).unwrap_or(0)
+}
+pub fn panics_since(n: usize) -> Vec<String> {
+    PANICS.lock().map(|p| p[n.min(p.len())..].to_vec()).unwrap_or_default()
+}
+
+pub fn json_headers(h: &[(String, String)]) -> Value {
+    json!(h.iter().map(|(k, v)| format!("{k}: {v}")).collect::<Vec<_>>())
+}
